@@ -177,6 +177,33 @@ func runC14(c *fw.Ctx) {
 			}
 		})
 	}
+	// large inputs (16 384 elements and more, leading sizes that no small worker count divides): kernels that split big tensors between
+	// workers must still map every row; the child processes of a run differ in GOMAXPROCS (1, 2, 3, 4, 5, 7, all)
+	for _, shape := range [][]int{{9, 2048}, {17, 1024}, {5, 4097}, {100, 200}, {23, 3, 300}, {131, 127}} {
+		for _, sp := range actSpecs(len(shape)) {
+			shape, sp := shape, sp
+			c.Case(func(k *fw.K) {
+				obj, err := sp.mk()
+				if err != nil {
+					k.Failf("%s: constructor failed: %v", sp.name, err)
+					return
+				}
+				x, cname := actValues(k, 0, shape, sp.in.Dim)
+				k.Case = map[string]any{"activation": sp.name, "shape": shape, "class": cname}
+				k.Key("%s/%s/large", sp.name, shapeKey(shape))
+				k.Count("forward_calls_on_large_inputs", 1)
+				want, _ := ref.Apply(sp.in, []*ref.T{x})
+				var y tensor.Tensor
+				if p := call(func() { y, err = obj.Forward(rt.MustLeaf(x, false)) }); p != nil || err != nil || y == nil {
+					k.Failf("%s on shape %v: panic=%v err=%v", sp.name, shape, p, err)
+					return
+				}
+				if e := rt.Compare(y, want, 1e-300, 1e-11, nil, 0); e != nil {
+					k.Failf("%s on shape %v (%d elements): %v", sp.name, shape, len(x.Data), e)
+				}
+			})
+		}
+	}
 	// groups of shapes that collide under ad-hoc cache keys and hashes: every activation (Softmax along every dimension) on every
 	// shape of a group, one after the other in one process, both orders
 	for gi, group := range CollidingShapes {
